@@ -194,7 +194,10 @@ def _replay_concrete(job, env, j, ix, qname):
             return None
         kw = {} if job.get('max_steps') is None else dict(max_steps=job['max_steps'])
         Y = [arr('y0')]
-        h = H(Y[0].copy(), t0=T[0], **kw)
+        caller0 = Y[0].copy()
+        h = H(caller0, t0=T[0], **kw)
+        if shape:
+            caller0[...] = -777.0          # the caller's arrays are overwritten after each call, as in the symbolic run
         n_ok = 0
         found = None
 
@@ -205,11 +208,14 @@ def _replay_concrete(job, env, j, ix, qname):
             return got, want
         for i in range(1, N + 1):
             Y.append(arr(f"y{i}"))
+            mine = Y[i].copy()
             try:
-                h.update(T[i], Y[i].copy())
+                h.update(T[i], mine)
             except IndexError:
                 Y.pop()
                 break
+            if shape:
+                mine[...] = -999.0
             n_ok = i
             if i in job['queries']:
                 for qi in range(nq):
